@@ -37,7 +37,11 @@ Templates(L) ==
      Cmp("eq", C1("date", s), L), Cmp("ge", L, Lit("Date", "2020-01-01")), Cmp("lt", L, Lit("DateTime", "2020-01-01T10:00:00Z")),
      Cmp("eq", C1("time", s), L), Cmp("eq", L, Lit("Time", "10:00:00")), Cmp("eq", Lit("GUID", "123e4567-e89b-12d3-a456-426614174000"), L),
      Cmp("eq", L, one), Cmp("gt", Lit("Float", "1.5"), L), Cmp("eq", L, BoolL("true")), Cmp("eq", L, Lit("Null", "null")),
-     Cmp("eq", C1("year", s), L), Cmp("in", C1("date", s), Lst(<<L, Lit("Date", "2020-01-01")>>)) >>
+     Cmp("eq", C1("year", s), L), Cmp("in", C1("date", s), Lst(<<L, Lit("Date", "2020-01-01")>>)),
+     \* an operand made of two grouped halves, the varied literal in the first, a closing parenthesis in the second
+     Un("not", Bool("or", Bool("and", Cmp("eq", s, L), Cmp("eq", u, K)), Bool("and", Cmp("eq", s, StrL(<<41>>)), Cmp("eq", u, K)))),
+     Bool("and", Bool("or", Cmp("eq", s, StrL(<<40>>)), Cmp("eq", u, K)), Bool("or", Cmp("eq", s, L), Cmp("eq", u, K))),
+     Cmp("eq", Call(Id0("substring"), <<C2("concat", s, L), IntL(0), C2("indexof", s, K)>>), K) >>
 Benign == <<120>>
 Q == 39
 BaseContents == << <<Q>>, <<Q, Q>>, <<120, Q>>, <<Q, 32, 79, 82, 32, Q, 49, Q, 61, Q, 49>>, <<45, 45>>, <<120, Q, 45, 45>>, <<47, 42>>, <<42, 47>>,
